@@ -1,9 +1,17 @@
 package streams
 
 import (
+	"context"
 	"fmt"
 	"strings"
 	"time"
+
+	"github.com/openconfig/gribigo/server"
+	"google.golang.org/protobuf/proto"
+
+	"verif/harness/ribx"
+	"verif/rt"
+	"verif/wire"
 
 	"google.golang.org/grpc/codes"
 
@@ -105,6 +113,9 @@ func runSharded(rep *report.Report, prop, tier string, dl time.Time) {
 			}
 		}
 	}
+	if prop == "C10" {
+		parts = append(parts, "sched/cancel", "sched/unavailable")
+	}
 	rep.Set("shards", len(parts))
 	rep.Shards(parts, 14, nil)
 }
@@ -112,6 +123,10 @@ func runSharded(rep *report.Report, prop, tier string, dl time.Time) {
 // Child runs one shard: the subtree of search label below the root history.
 func Child(prop string) func(rep *report.Report, tier, part string) {
 	return func(rep *report.Report, tier, part string) {
+		if strings.HasPrefix(part, "sched/") {
+			childC10Sched(rep, tier, part)
+			return
+		}
 		label, roots, _ := strings.Cut(part, "#")
 		var root []int
 		for _, f := range strings.Split(roots, ",") {
@@ -270,4 +285,83 @@ func c06Searches(tier string) []named {
 // held operations.
 func RunC06B(rep *report.Report, tier string, dl time.Time) {
 	runSharded(rep, "C06", tier, dl)
+}
+
+// schedBody: a session sends parameters, an election id and a batch of operations back to back and is then cut
+// (cancel or transport failure); the point at which the cut takes effect relative to the server's three
+// goroutines is decided by the explored schedule. Afterwards: session removed, election id is one the session
+// announced (or none), server serviceable.
+func schedBody(code codes.Code, fails *[]mc.Fail) func() {
+	return func() {
+		srv, err := server.New(server.WithVRFs([]string{V}))
+		if err != nil {
+			panic(err)
+		}
+		w := &world{o: &Options{Checks: Checks{Disconnect: true}}, srv: srv, stub: wire.New(srv), prim: -1, fold: ribx.NewModel(D, V)}
+		w.ss = append(w.ss, &sess{})
+		c, _ := w.stub.Modify(context.Background())
+		st := w.stub.Modifies[0]
+		c.Send(&spb.ModifyRequest{Params: proto.Clone(pOK).(*spb.SessionParameters)})
+		c.Send(&spb.ModifyRequest{ElectionId: (&ID{Lo: 3}).Proto()})
+		var ops []*spb.AFTOperation
+		for i, e := range []string{"ADD nh1", "ADD nh2", "ADD nhg1{1}", "ADD v4->1"} {
+			t := sesshist.Entries[entry(e)]
+			op := ribx.Op(uint64(i+1), t.NI, t.Op, proto.Clone(t.E))
+			op.ElectionId = (&ID{Lo: 3}).Proto()
+			ops = append(ops, op)
+		}
+		c.Send(&spb.ModifyRequest{Operation: ops})
+		st.Abort(code)
+		rt.Quiesce()
+		if n := len(srv.VerifSessions()); n != 0 {
+			w.bad("C10/session-not-removed-after-disconnect", "after the cut %d sessions remain in the session table", n)
+		}
+		_, id := srv.VerifElection()
+		if id != nil && (id.High != 0 || id.Low != 3) {
+			w.bad("C10/disconnect-changed-state/election", "the election id after the cut is %v, the session announced (0,3)", id)
+		}
+		if id != nil {
+			w.max = &ID{Lo: 3}
+		}
+		w.probe("a session cut under an explored schedule")
+		*fails = w.fails
+	}
+}
+
+// RunC10Sched is the schedule tier of C10 (child shards "sched/<code>").
+func childC10Sched(rep *report.Report, tier, part string) {
+	code := codes.Canceled
+	if strings.HasSuffix(part, "unavailable") {
+		code = codes.Unavailable
+	}
+	bound := 2
+	if tier == "thorough" {
+		bound = 3
+	}
+	var fails []mc.Fail
+	res := mc.DFS(mc.SchedConfig{Name: part, Body: schedBody(code, &fails), Bound: bound, SwitchCost: 1, Deadline: ribhist.Budget(tier, 90*time.Second, 15*time.Minute),
+		Check: func(x *rt.Exec) []mc.Fail {
+			out := fails
+			fails = nil
+			switch {
+			case x.Crash != "":
+				out = append(out, mc.Fail{Sig: "crash/" + crashSite(x.Crash), What: x.Crash})
+			case x.Deadlock:
+				out = append(out, mc.Fail{Sig: "C10/harness-blocked-after-cut", What: fmt.Sprintf("blocked: %v", x.Blocked)})
+			}
+			return out
+		}, Outcome: func(x *rt.Exec) string { return fmt.Sprint(len(x.Blocked), x.Deadlock) }})
+	if res.EngineError != "" {
+		rep.EngineError("%s: %s", part, res.EngineError)
+	}
+	rep.Add("states", res.Execs)
+	rep.Add("transitions", res.Steps)
+	rep.Add("traces_validated_against_impl", res.Execs)
+	rep.Add("evaluations", res.Execs)
+	rep.Add("distinct_nontrivial", res.Execs)
+	rep.And("exhaustive", res.Exhaustive)
+	rep.Set("schedule-tier:"+part, map[string]any{"executions": res.Execs, "bound_target": bound, "bound_completed": res.BoundCompleted, "executions_per_bound": res.ExecsPerBound, "bounding": "deviations from the default scheduler"})
+	for _, f := range res.Fails {
+		rep.Violate(f.Sig, f.What, map[string]any{"scenario": part, "schedule": f.History})
+	}
 }
